@@ -430,3 +430,47 @@ def r9_every_rectangle(ctx: Ctx) -> None:
     for x in removed:
         ctx.report(f.where, f"entry-removed {ast.unparse(x)[:40]}", "parse_yaml_rectangles removes / de-duplicates rectangles after reading them", lineno=getattr(x, "lineno", 0))
     ctx.require(n >= 1, "parse_yaml_rectangles: the construction of the rectangles was not found")
+
+
+def recognition_for_every_kind(ctx: Ctx) -> None:
+    """call sites of Module.create_stog in the netlist: recognition runs for every module that has rectangles, whatever its kind
+    -- no test on a kind flag (hard / fixed / terminal / soft / flip) decides whether a site is reached, neither as the branch
+    taken nor as the 'else' of such a test."""
+    KIND = {"is_hard", "is_fixed", "is_terminal", "is_soft", "is_iopin", "flip", "is_hard_or_fixed"}
+    n = 0
+    for f in ctx.model.all_functions(include_inlined=True):
+        if f.module.relpath != NETLIST:
+            continue
+        parents = {}
+        for p in ast.walk(f.node):
+            for c in ast.iter_child_nodes(p):
+                parents[c] = p
+        for c in walk_own(f.node):
+            if not (isinstance(c, ast.Call) and isinstance(c.func, ast.Attribute) and c.func.attr == "create_stog"):
+                continue
+            n += 1
+            ctx.site(f.where, "recognition call site reached for every kind of module", call=ast.unparse(c))
+            x = c
+            while x in parents and x is not f.node:
+                p = parents[x]
+                tests = []
+                if isinstance(p, (ast.If, ast.While)) and x is not p.test:
+                    tests.append(p.test)
+                if isinstance(p, ast.IfExp) and x is not p.test:
+                    tests.append(p.test)
+                for t in tests:
+                    flags = sorted({a.attr for a in ast.walk(t) if isinstance(a, ast.Attribute) and a.attr in KIND})
+                    if flags:
+                        ctx.report(f.where, f"recognition-by-kind {','.join(flags)}", f"{f.qualname}: whether '{ast.unparse(c)}' runs depends on the kind of "
+                                   f"the module ('{ast.unparse(t)[:60]}'): modules of the other kind keep unlabelled rectangles (no trunk, has_stog False)",
+                                   lineno=c.lineno)
+                x = p
+    ctx.require(n >= 2, f"create_stog call sites in the netlist fewer than confirmed ({n})")
+
+
+@rule("C06", "R10.recognition-for-every-kind", "GUARD",
+      "the netlist runs the recognition on every module with rectangles, whatever its kind: no call site of create_stog is "
+      "under (or in the else of) a test of a kind flag -- a hard / fixed module loaded from a description is recognised like a "
+      "soft one (seeded change C15-9)", floor=2)
+def r10_every_kind(ctx: Ctx) -> None:
+    recognition_for_every_kind(ctx)
